@@ -262,6 +262,10 @@ def install(it):
             raise PyRaise(o)
         m.ns['exit'] = B('sys.exit', sys_exit)
         m.ns['maxsize'] = __import__('sys').maxsize
+        from .models import HostNamespace
+        m.ns['stdin'] = HostNamespace('stdin', {'encoding': 'utf-8'})
+        m.ns['getdefaultencoding'] = B('sys.getdefaultencoding',
+                                       lambda it, a, kw: 'utf-8')
         return m
 
     # ---------------- re
